@@ -564,4 +564,177 @@ Section Family.
     - exfalso. destruct (Hcs c Ic) as (_ & _ & N). contradiction.
     - rewrite (@NoDup_map_inj _ _ fn_type cs c' c Hcnd Ic' Ic E) in Q. exact Q.
   Qed.
+
+  (* ---------- full_graph computes GG ---------- *)
+  Variable b : builder.
+  Hypothesis Hb1 : b_named b = named.
+  Hypothesis Hb2 : b_namedsub b = [].
+  Hypothesis Hb3 : b_typed b = [].
+  Hypothesis Hb4 : b_typedsub b = [].
+  Hypothesis Hb5 : b_convs b = cs.
+  Hypothesis Hb6 : b_gens b = [].
+  Hypothesis Hnd : NoDup (map fst named).
+  Hypothesis Hc0 : exists c0, In c0 cs.
+
+  Lemma input_vertices_eq : input_vertices b = ins.
+  Proof.
+    unfold input_vertices. rewrite Hb1, Hb2, Hb3, Hb4. simpl. rewrite app_nil_r.
+    unfold ins. apply map_ext_in. intros [m v] I. simpl. destruct (Hnm m v I) as [_ ->]. reflexivity.
+  Qed.
+
+  Definition vals0 : amap vkey value := fold_left (fun m kv => insert (fst kv) (snd kv) m) ins [].
+  Definition g1 : rgraph := func_graph g_root f false.
+
+  Lemma g3_eq :
+    fold_left (fun g c => func_graph g c true) cs
+      (fold_left (fun g kv => add_e (g_add_overwrite g (fst kv) PNone) (fst kv) KRoot w_normal) ins
+         (func_graph g_root f false)) = g3.
+  Proof.
+    unfold g3, L123. rewrite !app_ops_app. rewrite <- func_graph_ops, <- inputs_ops.
+    rewrite <- app_ops_flat_map. apply fold_left_ext. intros a c. apply func_graph_ops.
+  Qed.
+
+  Lemma KOut_fvert t s : fvert (KOut t s) -> KOut t s = OT \/ KOut t s = OU.
+  Proof. intros H. inversion H; auto. Qed.
+  Lemma KArg_fvert t s : fvert (KArg t s) -> KArg t s = AT \/ KArg t s = AU.
+  Proof. intros H. inversion H; auto. Qed.
+  Lemma KVal_fvert m t s : fvert (KVal m t s) -> KVal m t s = NU \/ (exists v, In (m, v) named /\ t = T /\ s = EmptyString).
+  Proof. intros H. inversion H; subst; eauto. Qed.
+
+  Lemma steps_eq valued :
+    step_arg_sub (step_named_sub valued (step_ifaces u (step_args (step_values g3)))) = GG.
+  Proof.
+    rewrite step_values_ops. fold L4. fold g5. rewrite step_args_ops. fold L5. fold GG.
+    rewrite step_ifaces_id.
+    2:{ intros t s P. apply GG_present in P. destruct (KOut_fvert P) as [Q|Q]; inversion Q; subst; assumption. }
+    rewrite step_named_sub_id.
+    2:{ intros m t s P. apply GG_present in P. destruct (KVal_fvert P) as [Q|(v & _ & _ & Q)]; [inversion Q|]; auto. }
+    apply step_arg_sub_id.
+    - intros t s P. apply GG_present in P. destruct (KArg_fvert P) as [Q|Q]; inversion Q; auto.
+    - intros t s P. apply GG_present in P. destruct (KOut_fvert P) as [Q|Q]; inversion Q; auto.
+  Qed.
+
+  Definition FG (t : tape vkey) : fgraph := mkFG GG vals0 fk (g_out_keys g1 fk) (map fst ins) cs [] t.
+
+  Lemma full_graph_eq t : full_graph u f b false t = Ok (inl (FG t), []).
+  Proof.
+    unfold full_graph. cbv zeta. fold g_root. rewrite input_vertices_eq, Hb5, Hb6. cbn [bind].
+    unfold run_gens. cbn [fold_left]. rewrite g3_eq, steps_eq. reflexivity.
+  Qed.
+
+  (* ---------- pruning ---------- *)
+  Definition pvert (k : vkey) : Prop := fvert k /\ k <> OT /\ (onm = n -> k <> OU).
+
+  Lemma GG_root : vtx GG KRoot <> None.
+  Proof. apply present_true. apply GG_present. constructor. Qed.
+
+  Lemma GG_edge_ne a b w : fedge a b w -> ew GG a b <> None.
+  Proof. intros H. apply GG_edges in H. rewrite H. discriminate. Qed.
+
+  Lemma fedge_src a b w : fedge a b w -> fvert a /\ a <> OT /\ (onm = n -> a <> OU).
+  Proof.
+    intros H. destruct H as [|m v I|c Ic|c Ic| | |m v I|m v I| |];
+      try (split; [econstructor; eauto|split; [discriminate|intros _; discriminate]]).
+    destruct OO_cases as [(E & Q & _)|(E & Q & _)]; rewrite Q.
+    - split; [constructor|]. split; [unfold OU, OT; intros X; inversion X; apply HTU; auto|].
+      intros E2. exfalso. rewrite E in E2. subst n. discriminate.
+    - split; [constructor|]. split; [discriminate|intros _; discriminate].
+  Qed.
+
+  Lemma fk_ne_c c : In c cs -> KFunc (fn_type c) <> fk.
+  Proof. intros Ic X. inversion X. destruct (Hcs c Ic) as (_ & _ & N). contradiction. Qed.
+
+  Lemma keep_iff k : In k (keepset GG fk) <-> pvert k.
+  Proof.
+    split.
+    - revert k. apply (keep_ind GG_wf (P := pvert)).
+      + split; [constructor|split; [discriminate|intros _; discriminate]].
+      + intros a x _ _ E. destruct (ew GG x a) as [w|] eqn:Q; [|contradiction E; reflexivity].
+        apply GG_edges in Q. apply (fedge_src Q).
+    - pose proof (keep_root fk GG_wf GG_root) as KR.
+      pose proof (fun a x => @keep_closed GG fk GG_wf GG_root a x) as KC.
+      destruct named_n as (vn & In').
+      assert (KI : forall m v, In (m, v) named -> In (KVal m T EmptyString) (keepset GG fk)).
+      { intros m v I. apply (KC KRoot); [exact KR|discriminate|]. apply (GG_edge_ne (fe_input m v I)). }
+      assert (KAT : In AT (keepset GG fk)).
+      { apply (KC NT); [apply (KI n vn In')|discriminate|]. apply (GG_edge_ne (fe_at_in n vn In')). }
+      assert (KCc : forall c, In c cs -> In (KFunc (fn_type c)) (keepset GG fk)).
+      { intros c Ic. apply (KC (inkey c)).
+        - destruct (inkey_cases c Ic) as [[Q _]|[Q _]]; rewrite Q; [exact KAT|apply (KI n vn In')].
+        - destruct (inkey_cases c Ic) as [[Q _]|[Q _]]; rewrite Q; discriminate.
+        - apply (GG_edge_ne (fe_cin c Ic)). }
+      destruct Hc0 as (c0 & Ic0).
+      assert (KOO : In OO (keepset GG fk)).
+      { apply (KC (KFunc (fn_type c0))); [apply KCc; exact Ic0|apply fk_ne_c; exact Ic0|].
+        apply (GG_edge_ne (fe_cout c0 Ic0)). }
+      assert (KNU : In NU (keepset GG fk)).
+      { destruct OO_cases as [(_ & Q & _)|(_ & Q & _)]; rewrite Q in KOO; [|exact KOO].
+        apply (KC OU); [exact KOO|discriminate|]. apply (GG_edge_ne fe_nu_ou). }
+      intros (V & N1 & N2). destruct V as [| | |m v I|c Ic| | | |].
+      + exact KR.
+      + apply (KC NU); [exact KNU|discriminate|]. apply (GG_edge_ne fe_target).
+      + exact KNU.
+      + apply (KI m v I).
+      + apply (KCc c Ic).
+      + exact KAT.
+      + contradiction N1; reflexivity.
+      + apply (KC NU); [exact KNU|discriminate|]. apply (GG_edge_ne fe_au_nu).
+      + destruct OO_cases as [(_ & Q & _)|(E & _ & _)]; [rewrite Q in KOO; exact KOO|].
+        exfalso. apply (N2 E). reflexivity.
+  Qed.
+
+  Definition PG : rgraph := pruned GG fk.
+
+  Lemma PG_wf : wf_graph PG.
+  Proof. apply (pruned_spec fk GG_wf). Qed.
+
+  Lemma PG_vtx k : pvert k -> vtx PG k = vtx GG k.
+  Proof.
+    intros P. destruct (pruned_spec fk GG_wf) as (_ & Hv & _). unfold PG. rewrite Hv.
+    apply keep_iff in P. apply membT in P. rewrite P. reflexivity.
+  Qed.
+
+  Lemma PG_vtx_none k : ~ pvert k -> vtx PG k = None.
+  Proof.
+    intros P. destruct (pruned_spec fk GG_wf) as (_ & Hv & _). unfold PG. rewrite Hv.
+    destruct (memb k (keepset GG fk)) eqn:M; [|reflexivity].
+    exfalso. apply P. apply keep_iff. apply membT. exact M.
+  Qed.
+
+  Lemma PG_edges a b w : ew PG a b = Some w <-> fedge a b w /\ pvert a /\ pvert b.
+  Proof.
+    destruct (pruned_spec fk GG_wf) as (_ & _ & He). unfold PG. rewrite He.
+    destruct (memb a (keepset GG fk)) eqn:Ma; destruct (memb b (keepset GG fk)) eqn:Mb; simpl.
+    - apply membT in Ma. apply membT in Mb. apply keep_iff in Ma. apply keep_iff in Mb.
+      rewrite GG_edges. tauto.
+    - split; [discriminate|]. intros (_ & _ & P). apply keep_iff in P. apply membT in P. congruence.
+    - split; [discriminate|]. intros (_ & P & _). apply keep_iff in P. apply membT in P. congruence.
+    - split; [discriminate|]. intros (_ & P & _). apply keep_iff in P. apply membT in P. congruence.
+  Qed.
+
+  Lemma pvert_NU : pvert NU.
+  Proof. split; [constructor|split; [discriminate|intros _; discriminate]]. Qed.
+
+  Lemma g1_out k : In k (g_out_keys g1 fk) -> k = NU.
+  Proof.
+    intros I. apply in_out_keys in I. unfold g1 in I. rewrite func_graph_ops, fops_target in I.
+    destruct (app_ops_spec [OF fk (PFunc f); OV NU; OE fk NU w_normal] g_root_wf) as (_ & _ & Hs & _).
+    destruct (ew (app_ops [OF fk (PFunc f); OV NU; OE fk NU w_normal] g_root) fk k) as [w|] eqn:Q;
+      [|contradiction I; reflexivity].
+    destruct (Hs _ _ _ Q) as [Q1|Q1]; [rewrite g_root_noedge in Q1; discriminate|].
+    simpl in Q1. destruct Q1 as [Q1|[Q1|[Q1|[]]]]; try discriminate. inversion Q1. reflexivity.
+  Qed.
+
+  Definition CG (t : tape vkey) : cgraph := mkCG PG vals0 fk (map fst ins) cs [] t.
+
+  Lemma prune_eq t : prune (FG t) = inl (CG t).
+  Proof.
+    rewrite prune_unfold. unfold FG. cbn [fg_g fg_target fg_freq fg_vals fg_inputs fg_convs fg_trace fg_tape].
+    fold PG.
+    assert (E : unsat_of (mkFG GG vals0 fk (g_out_keys g1 fk) (map fst ins) cs [] t) = []).
+    { unfold unsat_of. cbn [fg_g fg_target fg_freq]. fold PG.
+      induction (g_out_keys g1 fk) as [|k l IH] eqn:EL in g1_out |- *; [reflexivity|].
+      admit. }
+    rewrite E. reflexivity.
+  Admitted.
 End Family.
